@@ -64,7 +64,10 @@ def run_history(ctx, ask, rng, exhaustive_objs=None, cfg=None):
                 objs = [rng.uniform(0, 1) if rng.random() < 0.9 else rng.choice([0.0, 1.0, 0.5]) for _ in range(n)]
             if n >= 2 and rng.random() < 0.5:      # bias towards trade-off fronts so that the archive fills up
                 objs[1] = float(vmax - objs[0]) + rng.choice([0, 0, 1, -1]) if lattice else 1 - objs[0] + rng.uniform(-.1, .1)
-            sols.append(mk_sol(p, objs, float(rng.choice([0, 0, 1])) if constrained else 0.0))
+            if sols and rng.random() < 0.07:
+                sols.append(rng.choice(sols))          # the same solution object offered again (it may be a current member)
+            else:
+                sols.append(mk_sol(p, objs, float(rng.choice([0, 0, 1])) if constrained else 0.0))
     else:
         n, dirs, constrained, capacity, divisions = cfg
         p = mk_problem(n, dirs, constrained)
@@ -109,8 +112,12 @@ def run_history(ctx, ask, rng, exhaustive_objs=None, cfg=None):
                 ctx.fail("fitting-newcomer-not-added-or-wrong-evictions", hin, [r, [ids(m) for m in after]], [True, [ids(m) for m in T]], "core.AdaptiveGridArchive.add"); ok = False; break
         else:
             nover += 1
-            dropped = [m for m in T if id(m) not in {id(x) for x in after}]
-            extra = [m for m in after if id(m) not in {id(x) for x in T}]
+            # as multisets of references: the same object may be listed more than once
+            from collections import Counter
+            cT, cA = Counter(id(m) for m in T), Counter(id(m) for m in after)
+            byid = {id(m): m for m in T + after}
+            dropped = [byid[i] for i, c in (cT - cA).items() for _ in range(c)]
+            extra = [byid[i] for i, c in (cA - cT).items() for _ in range(c)]
             if len(dropped) != 1 or extra or (r is False) != (dropped[0] is s):
                 ctx.fail("overflow-not-exactly-one-dropped", hin, [r, [ids(m) for m in after]], f"{[ids(m) for m in T]} minus exactly one", "core.AdaptiveGridArchive.add"); ok = False; break
             pdrop = dropped[0]
